@@ -56,3 +56,9 @@ claim("C16",
       "refused => no side effect and dry-run => no API call. (Arbitration-round half of the property: being added, see DESIGN.md.)",
       "Trusted: TLC, the parking fake eviction client / evict plugin. Schedule granularity: a caller is observed when it is refused, parks inside the API call, or returns.",
       "DESIGN.md 5 C16")
+claim("C10",
+      "TLA+ spec Suppress (budget / cpuset / quota predicates + transcription of the selection policy and adjustByCPUSet/adjustByCfsQuota): TLC exhaustive MC over every assignment of 4-8 CPUs to {free, LSR, LSE, reserved, system-exclusive} x budgets; real calculateBESuppressCPU / calculateBESuppressCPUSetPolicy / adjustByCPUSet / adjustByCfsQuota outputs (files under a temp cgroup root, panics recorded as events) validated by TLC (trace validation)",
+      "TLC checks on the transcription that the budget formula is floored and monotone and that the derived CPU set is distinct, within budget (min 2, step-limited), exact when enough CPUs are eligible and free of LSE-owned / reserved / system-exclusive CPUs for every CPU-class assignment of the bounded topologies; "
+      "the same tables plus random nodes up to 64 CPUs are run on the real code and every recorded budget, policy result, written cpuset / cfs quota - or panic - is checked by TLC against the property-level predicates.",
+      "Trusted: TLC, gomock states-informer / metric-cache and the temp cgroup root of the package tests. cgroup v1, BECPUManager off; usages multiples of 125m (exact arithmetic). Rounds that derive no set (fewer eligible CPUs than budgeted) are not judged - reading decision recorded in DESIGN.md.",
+      "DESIGN.md 5 C10")
